@@ -269,23 +269,51 @@ func TestC15NewHash(t *testing.T) {
 		salt2 := genBytesField(t, "salt2", 64)
 		rnd, seed := drawStream(t, "rand")
 		s := srp.NewSRP(rnd)
-		in := srp.Input{Salt1: append([]byte(nil), salt1...), Salt2: salt2, G: g, P: ref.SRPPad(grp.P)}
-		h, newSalt, err := s.NewHash(password, in)
-		if err != nil {
-			t.Fatalf("NewHash: %v", err)
+		// salt1 as the caller holds it: a slice of a larger buffer (0..64 bytes
+		// of the caller's own data behind it), as a field decoded out of a
+		// message is
+		spare := rapid.SampledFrom([]int{0, 0, 8, 32, 33, 64}).Draw(t, "bytesBehindSalt1")
+		backing := make([]byte, len(salt1)+spare)
+		copy(backing, salt1)
+		for i := len(salt1); i < len(backing); i++ {
+			backing[i] = 0xC3
 		}
-		wantSalt := append(append([]byte(nil), salt1...), pbt.NewStream(seed).Bytes(32)...)
-		if !bytes.Equal(newSalt, wantSalt) {
-			t.Fatalf("new salt1 is not salt1 + 32 random bytes: got %d bytes", len(newSalt))
+		in := srp.Input{Salt1: backing[:len(salt1)], Salt2: salt2, G: g, P: ref.SRPPad(grp.P)}
+		rs := pbt.NewStream(seed)
+		type made struct{ h, salt, hCopy, saltCopy []byte }
+		var results []made
+		calls := rapid.IntRange(1, 3).Draw(t, "calls")
+		for k := 0; k < calls; k++ {
+			h, newSalt, err := s.NewHash(password, in)
+			if err != nil {
+				t.Fatalf("NewHash: %v", err)
+			}
+			wantSalt := append(append([]byte(nil), salt1...), rs.Bytes(32)...)
+			if !bytes.Equal(newSalt, wantSalt) {
+				t.Fatalf("call %d: new salt1 is not salt1 + 32 random bytes: got %d bytes", k, len(newSalt))
+			}
+			results = append(results, made{h, newSalt, append([]byte(nil), h...), append([]byte(nil), newSalt...)})
 		}
 		if !bytes.Equal(in.Salt1, salt1) {
 			t.Fatalf("NewHash modified the caller's salt1")
 		}
-		params := ref.SRPParams{G: g, P: grp.P, Salt1: newSalt, Salt2: salt2}
-		want := ref.SRPPad(params.SRPVerifierV(ref.SRPX(password, newSalt, salt2)))
-		if !bytes.Equal(h, want) {
-			t.Fatalf("new_password_hash mismatch (group %s g=%d)", grp.Name, g)
+		for i := len(salt1); i < len(backing); i++ {
+			if backing[i] != 0xC3 {
+				t.Fatalf("NewHash wrote into the caller's buffer behind salt1 (byte %d of %d behind it)", i-len(salt1), spare)
+			}
 		}
-		st.Case(fmt.Sprintf("%s/%d/%x/%x/%d", grp.Name, g, password, salt1, seed), true, nil, "group:"+grp.Name)
+		// every (verifier, salt) pair handed out is still what it was and still
+		// belongs together, whatever was made after it
+		for k, r := range results {
+			if !bytes.Equal(r.h, r.hCopy) || !bytes.Equal(r.salt, r.saltCopy) {
+				t.Fatalf("the result of NewHash call %d of %d changed after it was returned (%d bytes behind salt1 in the caller's buffer)", k, calls, spare)
+			}
+			params := ref.SRPParams{G: g, P: grp.P, Salt1: r.salt, Salt2: salt2}
+			want := ref.SRPPad(params.SRPVerifierV(ref.SRPX(password, r.salt, salt2)))
+			if !bytes.Equal(r.h, want) {
+				t.Fatalf("new_password_hash mismatch (group %s g=%d, call %d)", grp.Name, g, k)
+			}
+		}
+		st.Case(fmt.Sprintf("%s/%d/%x/%x/%d/%d/%d", grp.Name, g, password, salt1, seed, spare, calls), spare >= 32 || calls > 1, nil, "group:"+grp.Name, fmt.Sprintf("behindSalt1=%d", spare), fmt.Sprintf("calls=%d", calls))
 	})
 }
